@@ -3,7 +3,7 @@
 Theorems: coq/C16/Properties_C16.v (decimal/hex/octal/binary round trips for every integer, canonical
 form, pad length, sign-first zero padding of printf, %% literal, the interpolation splitter partitions
 the literal for every byte string, {{ }} literal, single-space joining, output in order up to an error
-exit; four laws refuted on the faithful model = known findings; {n:0N} sign-first since fix 4cd822e).
+exit; two laws refuted on the faithful model = known findings; three former findings repaired in /repo and proved).
 Tie: generated Cb programs (declarations + print/println statements + optionally a failing statement)
 are run on /repo's binary; the extracted model (bin/c16_model) is given the same statements; stdout
 bytes are compared.  Independently every statement carries the output the property's own reading
@@ -32,10 +32,11 @@ META = {
             "unsigned views), decimal output is canonical, padded length = max(width, digits), printf and {n:0N} zero "
             "padding keep the sign first, %% gives %, the splitter's segments re-assemble to the literal for every byte string, "
             "{{ }} give braces, text outside braces is byte-identical, arguments are joined by single spaces, output "
-            "appears in statement order up to an error exit. Four laws are refuted on the faithful model (known "
-            "findings: %c of a 0 byte prints the decimal number, escapes are not "
-            "processed in multi-argument println, an escaped backslash hides a following directive, escapes are "
-            "processed after substitution). On every run the extracted model and /repo's binary are run on "
+            "appears in statement order up to an error exit; a plain literal prints its escape-processed text alone or "
+            "among several arguments; only an odd run of backslashes hides a directive. Two laws are refuted on the "
+            "faithful model (known findings: %c of a 0 byte prints the decimal number, escapes are processed after "
+            "substitution); three former findings are repaired in /repo (4cd822e, 033c981, 475de81) and now proved. "
+            "On every run the extracted model and /repo's binary are run on "
             "the same generated programs (values at and around every power of two and integer type limit through every "
             "converter, widths 0-20, arities 1-6, ASCII/UTF-8/raw high bytes, programs that fail after printing) and "
             "stdout bytes are compared; the output demanded by the property's own reading is compared as well.",
@@ -294,8 +295,10 @@ class Gen:
                 a = self.str_arg(); args.append(a); want.append(a["v"])
             elif r < 0.8:
                 t = rand_text(rng, 8, allow="}" if rng.random() < 0.1 else "")
-                if n == 1 and rng.random() < 0.3:
-                    t += rng.choice(["\\n", "\\t", "\\\\", "\\%", "%", "100% x", "%d", "%%"])     # single literal: escapes processed, % literal
+                if rng.random() < 0.3:      # escapes are processed in every plain literal (since fix 033c981)
+                    t += rng.choice(["\\n", "\\t", "\\\\", "\\%", "\\r", "\\\\\\n"]) + rand_text(rng, 2)
+                if n == 1 and rng.random() < 0.2:
+                    t += rng.choice(["%", "100% x", "%d", "%%", "\\\\%d"])     # single literal: % is literal
                 args.append({"k": "Q", "text": t})
                 w_ = spec_escape(t)
                 if w_ is None or "}" in t:
@@ -309,7 +312,7 @@ class Gen:
                 want.append(w_ or "")
         nl = 1 if rng.random() < 0.85 else 0
         # a string literal with a directive would turn the statement into a format statement
-        if n > 1 and any(a["k"] == "Q" and "%" in a["text"] for a in args):
+        if n > 1 and any(a["k"] == "Q" and not has_brace(a["text"]) and detects_format(a["text"]) for a in args):
             ok = False
         return {"nl": nl, "args": args, "want": (" ".join(want) + ("\n" if nl else "")) if ok else None, "kind": "plain"}
 
@@ -364,19 +367,16 @@ class Gen:
             if rng.random() < 0.6:
                 a = self.int_arg(); pre.append(a); pre_want.append(str(a["v"]))
             else:
-                t = rand_text(rng, 5) or "w"
-                pre.append({"k": "Q", "text": t}); pre_want.append(t)
+                t = (rand_text(rng, 5) or "w") + (rng.choice(["\\t", "\\\\", "\\%", "\\n"]) if rng.random() < 0.25 else "")
+                pre.append({"k": "Q", "text": t}); pre_want.append(spec_escape(t))
         nd = rng.randint(1, max(1, 5 - len(pre)))
         fmt, fargs, want, ok = [], [], [], True
         for _ in range(nd):
             t = rand_text(rng, 4)
-            if rng.random() < 0.1:
-                t += rng.choice(["\\n", "\\t", "\\%", "\\\\"])
-                if t.endswith("\\\\"):
-                    # known finding C16-backslash-before-percent: an escaped backslash directly before a
-                    # directive hides the directive; avoided in the main stream
-                    self.avoided["C16-backslash-before-percent"] = self.avoided.get("C16-backslash-before-percent", 0) + 1
-                    t += "_"
+            if rng.random() < 0.15:
+                # escapes, among them runs of escaped backslashes directly before the directive (since fix 475de81
+                # an even run leaves the directive active)
+                t += rng.choice(["\\n", "\\t", "\\%", "\\\\", "\\\\\\\\", "\\\\\\%", "\\%\\\\"])
             fmt.append(t); want.append(spec_escape(t) or "")
             if spec_escape(t) is None:
                 ok = False
@@ -400,7 +400,7 @@ class Gen:
         args = pre + [{"k": "Q", "text": ftxt}] + fargs
         if len(args) == 1:
             ok = False      # a single literal is printed as it is (documented by tests/cases/printf/basic_format.cb)
-        if not detects_format(ftxt) or any(a["k"] == "Q" and "%" in a["text"] for a in pre):
+        if not detects_format(ftxt) or any(a["k"] == "Q" and detects_format(a["text"]) for a in pre):
             ok = False      # %x/%u/%i/%o/flagged directives alone are not recognised as a format string
         w = None
         if ok:
@@ -502,12 +502,19 @@ GRID = [("printf", conv, flags, w) for conv in ["d", "lld", "i", "u", "x", "X", 
        [("interp", sp, None, w) for sp in ["N", "Nd", "0N", "0Nd", "Nx", "0Nx", "NX", "0NX", "Nb", "0Nb"] for w in range(0, 21)]
 
 
+def has_brace(t):
+    return "{" in t
+
+
 def detects_format(t):
     """independent re-statement of which literals Cb treats as a printf format (documented directives
-    %d %s %c %lld %% after an optional all-digit width; a preceding backslash hides the %)"""
+    %d %s %c %lld %% after an optional all-digit width; an odd run of backslashes before the % hides it)"""
     i = 0
     while i < len(t):
-        if t[i] == "%" and not (i > 0 and t[i - 1] == "\\"):
+        nb = 0
+        while nb < i and t[i - 1 - nb] == "\\":
+            nb += 1
+        if t[i] == "%" and nb % 2 == 0:
             j = i + 1
             while j < len(t) and t[j] in "0123456789":
                 j += 1
